@@ -2,6 +2,7 @@ import SlugModel.Lemmas.TrEq_splitSubPath
 import SlugModel.Lemmas.TrEq_parseLocalSource
 import SlugModel.Lemmas.TrEq_looksLikeLocalSource
 import SlugModel.Lemmas.TrEq_normalizeSubpath
+import SlugModel.Props.C06
 /-!
 # C06 (tie by translation)
 
@@ -30,5 +31,80 @@ theorem C06_tie_looksLikeLocalSource (s : Str) : Gen.looksLikeLocalSource s = lo
 theorem C06_tie_normalizeSubpath (g : Str) :
     Gen.normalizeSubpath g = (match normalizeSubpath g with | some r => (r, false) | none => ([], true)) :=
   gen_normalizeSubpath g
+
+/-! ### The property, stated over the translated functions -/
+
+/-- **C06_gen_parseLocalSource_roundtrip.** The Go function `ParseLocalSource` (sourceaddrs/source_local.go), as
+translated, only accepts strings that are already in canonical form: whenever it returns the stored path `r`
+without error for the given string `s`, then `r = s` (the stored path, which is also the printed form, is the
+given string) and parsing that printed form again succeeds with the same value. -/
+theorem C06_gen_parseLocalSource_roundtrip (s r : Str) (h : Gen.parseLocalSource s = (r, false)) :
+    r = s ∧ Gen.parseLocalSource r = (r, false) := by
+  rw [gen_parseLocalSource] at h
+  cases hp : parseLocal s with
+  | none => rw [hp] at h; simp at h
+  | some x =>
+    rw [hp] at h
+    have hx : x = r := by simpa using h
+    subst hx
+    obtain ⟨e, h2⟩ := C06_local_roundtrip s x hp
+    exact ⟨e, by rw [gen_parseLocalSource, h2]⟩
+
+/-- **C06_gen_normalizeSubpath_idem.** A sub-path the translated Go function `normalizeSubpath` returned without
+error is the given string, and is returned unchanged when normalised again (so the sub-path printed from an
+address is accepted verbatim when parsed back). -/
+theorem C06_gen_normalizeSubpath_idem (s n : Str) (h : Gen.normalizeSubpath s = (n, false)) :
+    n = s ∧ Gen.normalizeSubpath n = (n, false) := by
+  rw [gen_normalizeSubpath] at h
+  cases hp : normalizeSubpath s with
+  | none => rw [hp] at h; simp at h
+  | some x =>
+    rw [hp] at h
+    have hx : x = n := by simpa using h
+    subst hx
+    exact ⟨C06_normalize_id s x hp, by rw [gen_normalizeSubpath, C06_normalize_idem s x hp]⟩
+
+/-- **C06_gen_splitSubPath_parts.** The Go function `splitSubPath` (sourceaddrs/subpath.go), as translated, takes
+the registry-style printed form `pkg//sub[?query]` apart into the package (with the query re-attached) and the
+sub-path, so that the two returned parts recombine to the input — under the side conditions of
+`C06_subpath_split_roundtrip_partial` (each of them necessary, see the counterexamples `C06_cex_split_*`):
+neither part contains `?`, `pkg` contains no `//` and does not end in `/`, the printed string contains no `://`.
+Take `qs = []` for an address without query string. -/
+theorem C06_gen_splitSubPath_parts (pkg sub qs : Str)
+    (hq : '?' ∉ pkg) (hs : '?' ∉ sub) (hqs : qs = [] ∨ ∃ t, qs = '?' :: t)
+    (hss : contains (pkg ++ ['/']) ['/', '/'] = false)
+    (hsch : contains (pkg ++ '/' :: '/' :: sub) [':', '/', '/'] = false) :
+    Gen.splitSubPath (pkg ++ '/' :: '/' :: sub ++ qs) = (pkg ++ qs, sub) := by
+  rw [gen_splitSubPath]
+  exact C06_subpath_split_roundtrip_partial pkg sub qs hq hs hqs hss hsch
+
+/-- **C06_gen_splitSubPath_parts_url.** The same for URL-shaped packages `scheme://rest` (remote sources): the
+translated `splitSubPath` skips only the first `://`; `rest` contains no `//` and does not end in `/`; the
+sub-path may contain anything but `?`. -/
+theorem C06_gen_splitSubPath_parts_url (sch rest sub qs : Str)
+    (hq1 : '?' ∉ sch) (hq2 : '?' ∉ rest) (hs : '?' ∉ sub) (hqs : qs = [] ∨ ∃ t, qs = '?' :: t)
+    (hsch : contains (sch ++ [':', '/']) [':', '/', '/'] = false)
+    (hss : contains (rest ++ ['/']) ['/', '/'] = false) :
+    Gen.splitSubPath (sch ++ ':' :: '/' :: '/' :: (rest ++ '/' :: '/' :: sub) ++ qs) =
+      (sch ++ ':' :: '/' :: '/' :: rest ++ qs, sub) := by
+  rw [gen_splitSubPath]
+  exact C06_subpath_split_roundtrip_url sch rest sub qs hq1 hq2 hs hqs hsch hss
+
+/-- **C06_gen_splitSubPath_none.** A package without `//` (an address printed without sub-path, with or without
+query string) is split by the translated `splitSubPath` into itself and no sub-path. -/
+theorem C06_gen_splitSubPath_none (pkg qs : Str) (hq : '?' ∉ pkg) (hqs : qs = [] ∨ ∃ t, qs = '?' :: t)
+    (hss : contains pkg ['/', '/'] = false) :
+    Gen.splitSubPath (pkg ++ qs) = (pkg ++ qs, []) := by
+  rw [gen_splitSubPath]
+  exact C06_subpath_split_none pkg qs hq hqs hss
+
+/-- **C06_gen_splitSubPath_none_url.** The same for a URL-shaped package `scheme://rest` without sub-path. -/
+theorem C06_gen_splitSubPath_none_url (sch rest qs : Str)
+    (hq1 : '?' ∉ sch) (hq2 : '?' ∉ rest) (hqs : qs = [] ∨ ∃ t, qs = '?' :: t)
+    (hsch : contains (sch ++ [':', '/']) [':', '/', '/'] = false)
+    (hss : contains rest ['/', '/'] = false) :
+    Gen.splitSubPath (sch ++ ':' :: '/' :: '/' :: rest ++ qs) = (sch ++ ':' :: '/' :: '/' :: rest ++ qs, []) := by
+  rw [gen_splitSubPath]
+  exact C06_subpath_split_none_url sch rest qs hq1 hq2 hqs hsch hss
 
 end Slug
